@@ -278,12 +278,36 @@ func (h *harness) pickStream(in restoreInput, other exportSet) (fr *faultReader,
 func (h *harness) scenarioCorrupt(pre *gateFS, preDump nodeDump) bool {
 	r := h.r
 	tp := r.Tape
+	g := cloneDisk(pre.mem)
+	n, ok := h.openTarget(g)
+	if !ok {
+		return false
+	}
+	// several independent corruptions against the same (still untouched) target
+	trials := 1 + tp.Intn(5)
+	fired := false
+	for i := 0; i < trials; i++ {
+		done, hit := h.corruptTrial(n, preDump)
+		fired = fired || hit
+		if done || r.Failed() || r.InfraErr != "" {
+			break
+		}
+	}
+	return fired
+}
+
+// corruptTrial applies one corrupted stream. done reports that the target no
+// longer equals its pre-import state for a legitimate reason (a checksum-valid
+// mutation was accepted) or that the run failed.
+func (h *harness) corruptTrial(n *node, preDump nodeDump) (done, fired bool) {
+	r := h.r
+	tp := r.Tape
 	in := h.input(h.expA, h.slotA)
 	fr, other, idx := h.pickStream(in, h.expB)
 	mut, kind, sealed := mutateStream(r, fr.data, other)
 	if equalBytes(mut, fr.data) {
 		r.Logf("corrupt stream=%d kind=%s produced identical bytes", idx, kind)
-		return false
+		return false, false
 	}
 	fr.data = mut
 	if tp.Chance(1, 4) {
@@ -295,11 +319,6 @@ func (h *harness) scenarioCorrupt(pre *gateFS, preDump nodeDump) bool {
 		r.Fault("stream." + kind + ".resealed")
 	} else {
 		r.Fault("stream." + kind)
-	}
-	g := cloneDisk(pre.mem)
-	n, ok := h.openTarget(g)
-	if !ok {
-		return false
 	}
 	var err error
 	if mode == modeDirect {
@@ -320,24 +339,25 @@ func (h *harness) scenarioCorrupt(pre *gateFS, preDump nodeDump) bool {
 	}
 	r.Logf("corrupt outcome=%s", step)
 	r.State("corrupt", kind, sealed, modeName(mode), step)
+	r.Steps++
 	switch {
 	case err == nil && !sealed:
 		r.FailSig("stream.corrupt_accepted", kind, fmt.Sprintf("a %s-corrupted stream %d (%d bytes, original %d) was accepted by the %s restore", kind, idx, len(mut), len(h.streamOf(idx)), modeName(mode)), nil)
-		return false
+		return true, true
 	case err == nil:
 		r.Probe("stream.resealed_accepted")
-		return true
+		return true, true
 	case step == "import-messages-slot":
 		// direct mode has no routing knowledge; the mismatch is only detectable after the import
 		r.Probe("stream.foreign_detected_after_import")
-		return true
+		return true, true
 	}
 	what := fmt.Sprintf("%s restore rejected the %s stream %d at %s (%v) but the target changed", modeName(mode), kind, idx, step, err)
 	if !h.sameAs(n, preDump, "stream.partial_apply", kind, what) {
-		return false
+		return true, true
 	}
 	r.Probe("stream.rejected_clean")
-	return true
+	return false, true
 }
 
 func (h *harness) streamOf(idx int) []byte {
